@@ -186,16 +186,6 @@ Definition park_pc (p : pc) : bool :=
   | _ => false
   end.
 
-Fixpoint resolve (h : heap) (n : nat) (p : path) : option nat :=
-  match p with
-  | [] => Some n
-  | k :: r =>
-      match get_cont h n with
-      | CBranch cs => match assoc k cs with Some c => resolve h c r | None => None end
-      | _ => None
-      end
-  end.
-
 Definition cop_of (h : heap) (o : sop) : cop :=
   match o with
   | SAdd p v => CAdd p v
@@ -265,7 +255,7 @@ Definition advance (prog : list sop) (c : cfg) (i : nat) : list cfg :=
   let s1 :=
     if started then s
     else match nth_error prog i with
-         | Some o => ST (hp s) (set_nth (thr s) i (TH (PStart (cop_of (hp s) o)) []))
+         | Some o => let co := cop_of (hp s) o in ST (hp s) (set_nth (thr s) i (TH co (PStart co) []))
          | None => s
          end in
   let st' := set_nth (cstarted c) i true in
@@ -338,7 +328,7 @@ Definition obs_match (c : cfg) (o : sobs) : bool :=
   && list_eqb pn_eqb (snapshot (hp (cst c))) (isort pn_leb (so_locks o)).
 
 Definition init_cfg (prog : list sop) : cfg :=
-  CFG (ST [empty_root] (map (fun _ => TH (PDone XUnit) []) prog)) (map (fun _ => false) prog).
+  CFG (ST [empty_root] (map (fun _ => TH (CGetVal []) (PDone XUnit) []) prog)) (map (fun _ => false) prog).
 
 (** acceptance: the configurations the model can be in after the observed
     steps; [inl i]: no model run explains observation [i] *)
@@ -383,6 +373,22 @@ Definition sched_history (prog : list sop) (obs : list sobs) (results : list are
     | _, _, _, _ => []
     end) (seq 0 (List.length prog)).
 
+(** lock coupling judged on the implementation's own lock probes (K_P, no
+    model involved): while some tree operation is blocked in a mutex, or some
+    node below the root is locked and no handle operation is in flight, the
+    root lock must be held by someone. *)
+Definition is_hold (o : sop) : bool := match o with SHold _ _ => true | _ => false end.
+
+Definition coupling_ok (prog : list sop) (o : sobs) : bool :=
+  let idx := seq 0 (List.length prog) in
+  let stat := fun i => nth i (so_status o) 0%nat in
+  let kind_hold := fun i => match nth_error prog i with Some x => is_hold x | None => false end in
+  let root_free := existsb (fun pc => is_nil (fst pc) && Nat.eqb (snd pc) 0) (so_locks o) in
+  let tree_blocked := existsb (fun i => negb (kind_hold i) && Nat.eqb (stat i) 2) idx in
+  let handle_active := existsb (fun i => kind_hold i && (Nat.eqb (stat i) 1 || Nat.eqb (stat i) 2)) idx in
+  let below_busy := existsb (fun pc => negb (is_nil (fst pc)) && negb (Nat.eqb (snd pc) 0)) (so_locks o) in
+  negb root_free || (negb tree_blocked && (negb below_busy || handle_active)).
+
 Definition sched_check (prog : list sop) (obs : list sobs) (results : list ares) (final : flat)
   : list (nat * N) :=
   (match accept prog [init_cfg prog] obs 0 with
@@ -390,6 +396,7 @@ Definition sched_check (prog : list sop) (obs : list sobs) (results : list ares)
    | inr cs => if existsb (fun c => final_match c results final) cs then []
                else [(List.length obs, 1%N)]
    end)
+  ++ map (fun i => (i, 6%N)) (find_idx (fun o => negb (coupling_ok prog o)) obs 0)
   ++ window_check [] (sched_history prog obs results) final.
 
 (** ** cases *)
